@@ -1,6 +1,7 @@
 (* C01 — no missed matches: every combination satisfying WHERE is reported.
    Specification: [spec_results] — conditions are boolean combinations of atoms and predicate
-   calls, a call evaluates the predicate's body with its formals bound to the argument entities.
+   calls, a call evaluates the predicate's body with its formals bound to what the arguments denote
+   (the entity of an alias, the value of a string / number literal).
    Implementation model: [results] — candidates are the cross product of the entities of each
    FROM kind (no narrowing), the condition is the predicate-expanded expression ([inline], whose
    text [emit] is compared byte for byte with parser.ExpandedCondition), evaluated by the
